@@ -7,7 +7,7 @@ Ltac Zify.zify_post_hook ::= Z.div_mod_to_equations.
 (* ------------------------------------------------------------------ the spec's scanner agrees with the grammar *)
 Lemma body_ok_scan : forall r p d e, body_ok r p d e -> forall acc, scan_body r acc p = (acc ++ d, e).
 Proof.
-  intros r p d e H. induction H as [|r0 c0|c0|t part q d e Hl Hb IH|r0 bs q d e Hn Hl Hb IH]; intros acc.
+  intros r p d e H. induction H as [|r0 c0|c0|t part q d e Hl Hb IH|r0 bs q d e Hn Hl Hb IH|k q e Ht]; intros acc.
   - cbn. rewrite app_nil_r. reflexivity.
   - cbn. rewrite app_nil_r. reflexivity.
   - cbn. rewrite app_nil_r. reflexivity.
@@ -18,10 +18,14 @@ Proof.
     assert (Hp : (0 <? len bs) = true) by (apply len_pos_iff; exact Hn).
     assert (Hle : (len bs <=? r0) = true) by (apply N.leb_le; exact Hl).
     rewrite Hp, Hle. cbn [andb]. rewrite IH, app_assoc. reflexivity.
+  - destruct Ht as [[Hq He]|[[c [Hq He]]|[c [Hq He]]]]; subst q e; cbn; rewrite app_nil_r; reflexivity.
 Qed.
 
 Lemma body_ok_not_bad : forall r p d e, body_ok r p d e -> e <> EndBad.
-Proof. intros r p d e H. induction H; try discriminate; assumption. Qed.
+Proof.
+  intros r p d e H. induction H; try discriminate; try assumption.
+  match goal with Ht : tail_ok _ _ _ |- _ => destruct Ht as [[_ He]|[[c [_ He]]|[c [_ He]]]]; subst; discriminate end.
+Qed.
 
 (* ------------------------------------------------------------------ reflexivity of the spec's comparisons *)
 Lemma bytes_eqb_refl : forall a, bytes_eqb a a = true.
@@ -33,7 +37,7 @@ Proof. reflexivity. Qed.
 Lemma prefixb_refl : forall a, prefixb a a = true.
 Proof. intros a. rewrite <- (app_nil_r a) at 2. apply prefixb_app. Qed.
 Lemma witem_eqb_refl : forall w, witem_eqb w w = true.
-Proof. intros [t|b]; cbn; [apply N.eqb_refl | apply bytes_eqb_refl]. Qed.
+Proof. intros [t|b|]; cbn; [apply N.eqb_refl | apply bytes_eqb_refl | reflexivity]. Qed.
 Lemma call_eqb_refl : forall c, call_eqb c c = true.
 Proof. intros [c|c|]; cbn; try apply N.eqb_refl; reflexivity. Qed.
 Lemma list_eqb_refl : forall A (eqb : A -> A -> bool), (forall x, eqb x x = true) -> forall l, list_eqb eqb l l = true.
@@ -45,21 +49,24 @@ Lemma sat_intro : forall o a l, In a l -> sat1 o a = true -> sat o l = true.
 Proof. intros o a l Hin Hs. unfold sat. apply existsb_exists. exists a. split; assumption. Qed.
 
 (* an error outcome meets an AErr allowance *)
-Lemma sat1_err : forall k code aborts upto tx data calls0 txs,
+Lemma sat1_err : forall k code aborts upto tx data g calls0 txs,
   filter is_abort calls0 = aborts -> prefixb data upto = true ->
   (match tx with Some t => txs = t | None => True end) ->
-  sat1 {| ob_out := OStreamErr k code; ob_data := data; ob_calls := calls0; ob_tx := txs |}
+  sat1 {| ob_out := OStreamErr k code; ob_data := data; ob_trl := g; ob_calls := calls0; ob_tx := txs |}
        (AErr k code aborts upto tx) = true.
 Proof.
-  intros k code aborts upto tx data calls0 txs Hc Hp Ht. cbn [sat1 ob_out ob_data ob_calls ob_tx].
+  intros k code aborts upto tx data g calls0 txs Hc Hp Ht. cbn [sat1 ob_out ob_data ob_calls ob_tx].
   rewrite Hc, Hp, optN_eqb_refl, (list_eqb_refl _ _ call_eqb_refl).
   assert (Hk : errclass_eqb k k = true) by (destruct k; reflexivity). rewrite Hk.
   destruct tx as [t|]; [subst txs; rewrite (list_eqb_refl _ _ witem_eqb_refl)|]; reflexivity.
 Qed.
 
 (* ------------------------------------------------------------------ before the headers *)
+(* an undecodable trailer section is a connection error: not in the class *)
+Definition good_end (e : ending) : Prop := e <> EndFinT HBadQpack.
+
 Inductive pre_good (ro : role) : list ev -> Prop :=
-| pg_msg : forall body d e, body_ok 0 body d e -> pre_good ro (EHeaders HOk :: body)
+| pg_msg : forall body d e, body_ok 0 body d e -> good_end e -> pre_good ro (EHeaders HOk :: body)
 | pg_fin : ro = Server -> pre_good ro [EFin]
 | pg_reset : forall c, pre_good ro [EReset c]
 | pg_partial : forall c, pre_good ro [EPartial; EReset c].
@@ -71,7 +78,7 @@ Definition pn_pre_post (ro : role) (f : fstream) (T S : list ev) (res : pn * fst
   match res with
   | (PnPending, f') => pre_fs f' /\ pend f' = pend f /\ rx f' = []
   | (PnHeaders k, f') =>
-      k = HOk /\ exists body d e, S = EHeaders HOk :: body /\ body_ok 0 body d e /\
+      k = HOk /\ exists body d e, S = EHeaders HOk :: body /\ body_ok 0 body d e /\ good_end e /\
       fs_ok f' /\ remaining f' = 0 /\ pend f' ++ T = body /\ (msr f' < msr f)%nat
   | (PnEnd, _) => S = [EFin] /\ ro = Server
   | (PnErrQuic c, _) => S = [EReset c] \/ S = [EPartial; EReset c]
@@ -89,9 +96,9 @@ Proof.
     destruct (rx f) as [|x q] eqn:Hrx.
     + cbn. unfold pre_fs, pend. cbn. rewrite Hb, Hrx. repeat split; try reflexivity. left; reflexivity.
     + cbn [app] in Hp.
-      destruct Hg as [body d e Hbody|Hro|c|c]; injection Hp as Hx Hq; subst x.
+      destruct Hg as [body d e Hbody Hge|Hro|c|c]; injection Hp as Hx Hq; subst x.
       * subst body. cbn. split; [reflexivity|]. exists (q ++ T), d, e.
-        split; [reflexivity|]. split; [exact Hbody|]. split; [|split; [reflexivity|split; [reflexivity|]]].
+        split; [reflexivity|]. split; [exact Hbody|]. split; [exact Hge|]. split; [|split; [reflexivity|split; [reflexivity|]]].
         -- split; cbn; [constructor | intros Hf; discriminate Hf].
         -- unfold msr. rewrite Hb, Hrx. cbn. lia.
       * cbn. split; [reflexivity | assumption].
@@ -101,7 +108,7 @@ Proof.
         -- cbn. unfold pre_fs, pend. cbn. rewrite Hb, Hrx. repeat split; try reflexivity. right; reflexivity.
         -- cbn [app] in Hq. injection Hq as Hy Hq. subst y. cbn. right; reflexivity.
   - (* a partial frame is buffered *)
-    destruct Hg as [body d e Hbody|Hro|c|c]; try discriminate Hp. injection Hp as Hq.
+    destruct Hg as [body d e Hbody Hge|Hro|c|c]; try discriminate Hp. injection Hp as Hq.
     destruct (rx f) as [|y q'] eqn:Hrx.
     + cbn. unfold pre_fs, pend. cbn. rewrite Hb, Hrx. repeat split; try reflexivity. right; reflexivity.
     + cbn [app] in Hq. injection Hq as Hy Hq. subst y. cbn. right; reflexivity.
@@ -110,7 +117,7 @@ Qed.
 Lemma pre_good_terminal_last : forall ro S, pre_good ro S ->
   forall a x b, S = a ++ x :: b -> b <> [] -> is_chunk x.
 Proof.
-  intros ro S Hg a x b Heq Hb. destruct Hg as [body d e Hbody|Hro|c|c].
+  intros ro S Hg a x b Heq Hb. destruct Hg as [body d e Hbody Hge|Hro|c|c].
   - destruct a as [|y a']; cbn in Heq; injection Heq as Hy Hrest.
     + subst x. exact I.
     + eapply body_ok_terminal_last; [exact Hbody | exact Hrest | exact Hb].
@@ -145,23 +152,29 @@ Proof. repeat split; reflexivity. Qed.
 Definition pre_pc (ro : role) (p : pc) : Prop :=
   match ro, p with
   | Server, SWait | Server, SResolve => True
-  | Client, CSendReq | Client, CSendData | Client, CFinish | Client, CRecvResp => True
+  | Client, CSendReq | Client, CSendData | Client, CSendTrl | Client, CFinish | Client, CRecvResp => True
   | _, _ => False
   end.
 Definition recv_pc (ro : role) : pc := match ro with Server => SRecv | Client => CRecv end.
-Definition send_pc (p : pc) : Prop := p = SSendResp \/ p = SSendData \/ p = SFinish.
+Definition trl_pc (ro : role) : pc := match ro with Server => SRecvTrl | Client => CRecvTrl end.
+Definition send_pc (p : pc) : Prop := p = SSendResp \/ p = SSendData \/ p = SSendTrl \/ p = SFinish.
 
-Definition sent (p : pc) (body : bytes) : list witem * list call :=
+Definition trl_items (c : rcfg) : list witem := match c_trl c with Some _ => [WTrailers] | None => [] end.
+Definition sent (p : pc) (c : rcfg) : list witem * list call :=
   match p with
   | SSendData => ([WHeaders STATUS_OK], [])
-  | SFinish => ([WHeaders STATUS_OK; WData body], [])
+  | SSendTrl => ([WHeaders STATUS_OK; WData (c_body c)], [])
+  | SFinish => ([WHeaders STATUS_OK; WData (c_body c)] ++ trl_items c, [])
   | CSendData => ([WHeaders 0], [])
-  | CFinish => ([WHeaders 0; WData body], [])
-  | CRecvResp | CRecv => ([WHeaders 0; WData body], [CFin])
+  | CSendTrl => ([WHeaders 0; WData (c_body c)], [])
+  | CFinish => ([WHeaders 0; WData (c_body c)] ++ trl_items c, [])
+  | CRecvResp | CRecv | CRecvTrl => ([WHeaders 0; WData (c_body c)] ++ trl_items c, [CFin])
   | _ => ([], [])
   end.
 Definition sent_ok (r : req) : Prop :=
-  tx r = fst (sent (pcr r) (c_body (cfg r))) /\ calls r = snd (sent (pcr r) (c_body (cfg r))).
+  tx r = fst (sent (pcr r) (cfg r)) /\ calls r = snd (sent (pcr r) (cfg r)).
+(* nothing of a trailer section has been seen yet *)
+Definition no_trl (r : req) : Prop := trl r = None /\ gottrl r = false.
 
 Definition pre_stream (ro : role) (S : list ev) (f : fstream) (t : list ev) : Prop :=
   (pre_good ro S /\ pre_fs f /\ pend f ++ t = S) \/
@@ -169,16 +182,26 @@ Definition pre_stream (ro : role) (S : list ev) (f : fstream) (t : list ev) : Pr
      buf f = [] /\ remaining f = 0 /\ eos f = false /\
      ((rx f = [] /\ t = S) \/ (exists q, rx f = EHeaders k :: q))).
 
+(* the state between the end of the body and the answer of recv_trailers *)
+Definition trl_state (r : req) (e : ending) : Prop :=
+  (trl r = None /\ e = EndFin /\ eos (fs r) = true /\ buf (fs r) = []) \/
+  (exists k, trl r = Some k /\ tail_ok (pend (fs r) ++ todo r) e k).
+
 Inductive phase (E : renv) (S : list ev) (r : req) : Prop :=
 | ph_pre :
-    res r = None -> acc r = [] -> pre_pc (c_role (cfg r)) (pcr r) -> sent_ok r ->
+    res r = None -> acc r = [] -> pre_pc (c_role (cfg r)) (pcr r) -> sent_ok r -> no_trl r ->
     pre_stream (c_role (cfg r)) S (fs r) (todo r) -> phase E S r
 | ph_body : forall body D e d',
-    S = EHeaders HOk :: body -> body_ok 0 body D e ->
-    res r = None -> pcr r = recv_pc (c_role (cfg r)) -> sent_ok r -> fs_ok (fs r) ->
+    S = EHeaders HOk :: body -> body_ok 0 body D e -> good_end e ->
+    res r = None -> pcr r = recv_pc (c_role (cfg r)) -> sent_ok r -> no_trl r -> fs_ok (fs r) ->
     body_ok (remaining (fs r)) (pend (fs r) ++ todo r) d' e -> acc r ++ d' = D -> phase E S r
-| ph_send : forall body D,
-    S = EHeaders HOk :: body -> body_ok 0 body D EndFin ->
+| ph_trl : forall body D e,
+    S = EHeaders HOk :: body -> body_ok 0 body D e -> good_end e ->
+    res r = None -> pcr r = trl_pc (c_role (cfg r)) -> sent_ok r -> gottrl r = false ->
+    fs_ok (fs r) -> remaining (fs r) = 0 -> trl_state r e -> acc r = D -> phase E S r
+| ph_send : forall body D e,
+    S = EHeaders HOk :: body -> body_ok 0 body D e ->
+    (e = EndFin /\ gottrl r = false) \/ (e = EndFinT HOk /\ gottrl r = true) ->
     res r = None -> c_role (cfg r) = Server -> send_pc (pcr r) -> sent_ok r -> acc r = D -> phase E S r
 | ph_done : forall al x,
     res r = Some x -> pcr r = Done -> classify (cfg r) E S = Some al -> sat (observe r) al = true -> phase E S r.
@@ -188,61 +211,82 @@ Definition env_ok (E : renv) (s : shared) : Prop :=
 Definition stop_ok (E : renv) (r : req) : Prop := forall x, stopped r = Some x -> e_stop E = Some x.
 
 (* what the table says for scripts of the two pre-header shapes *)
+Definition msg_allowances (c : rcfg) (D : bytes) (e : ending) : option (list allowance) :=
+  match e with
+  | EndFin => Some [AOk D (healthy_tx c) false]
+  | EndFinT HOk => Some [AOk D (healthy_tx c) true]
+  | EndFinT HMalformed =>
+      Some [AErr KStreamError (Some RFC_H3_MESSAGE_ERROR) [CStop RFC_H3_MESSAGE_ERROR] D
+                 (match c_role c with Server => Some [] | Client => None end)]
+  | EndFinT HOversized =>
+      match c_role c with
+      | Server => Some [AErr KHeaderTooBig None [] D (Some [])]
+      | Client => Some [AErr KHeaderTooBig None [CStop RFC_H3_REQUEST_CANCELLED] D None]
+      end
+  | EndFinT HBadQpack => None
+  | EndReset code => Some [AErr KRemoteTerminate (Some code) [] D None]
+  | EndBad => None
+  end.
+
 Lemma classify_msg : forall c body D e, body_ok 0 body D e ->
   all_data (EHeaders HOk :: body) = D /\
-  classify_script c (EHeaders HOk :: body) =
-    match e with
-    | EndFin => Some [AOk D (healthy_tx c)]
-    | EndReset code => Some [AErr KRemoteTerminate (Some code) [] D None]
-    | EndBad => None
-    end.
+  classify_script c (EHeaders HOk :: body) = msg_allowances c D e.
 Proof.
   intros c body D e Hb. pose proof (body_ok_scan _ _ _ _ Hb []) as Hs. cbn [app] in Hs.
-  unfold all_data, classify_script. rewrite Hs. cbn [fst]. split; [reflexivity|]. destruct e; reflexivity.
+  unfold all_data, classify_script, msg_allowances. rewrite Hs. cbn [fst]. split; [reflexivity|].
+  destruct e as [|k|code|]; try reflexivity.
+Qed.
+
+Lemma msg_allowances_some : forall c D e, good_end e -> e <> EndBad -> exists l, msg_allowances c D e = Some l.
+Proof.
+  intros c D e Hg Hb. destruct e as [|k|code|]; cbn; try (eexists; reflexivity).
+  - destruct k; try (eexists; reflexivity); [destruct (c_role c); eexists; reflexivity | contradiction Hg; reflexivity].
+  - contradiction Hb; reflexivity.
 Qed.
 
 Lemma pre_good_classified : forall c S, pre_good (c_role c) S -> exists l, classify_script c S = Some l.
 Proof.
-  intros c S Hg. destruct Hg as [body d e Hbody|Hro|code|code].
+  intros c S Hg. destruct Hg as [body d e Hbody Hge|Hro|code|code].
   - destruct (classify_msg c body d e Hbody) as [_ Hc]. rewrite Hc.
-    pose proof (body_ok_not_bad _ _ _ _ Hbody) as Hne.
-    destruct e; [eexists; reflexivity | eexists; reflexivity | contradiction Hne; reflexivity].
+    apply msg_allowances_some; [exact Hge | eapply body_ok_not_bad; exact Hbody].
   - cbn. rewrite Hro. eexists; reflexivity.
   - cbn. eexists; reflexivity.
   - cbn. eexists; reflexivity.
 Qed.
 
 (* outcomes that the environment adds are always allowed once the script is in the class *)
-Lemma env_stop_allowed : forall c E S l x data cs txs,
+Lemma env_stop_allowed : forall c E S l x data g cs txs,
   classify_script c S = Some l -> e_stop E = Some x ->
   prefixb data (all_data S) = true -> filter is_abort cs = [] ->
   exists al, classify c E S = Some al /\
-    sat {| ob_out := OStreamErr KRemoteTerminate (Some x); ob_data := data; ob_calls := cs; ob_tx := txs |} al = true.
+    sat {| ob_out := OStreamErr KRemoteTerminate (Some x); ob_data := data; ob_trl := g; ob_calls := cs; ob_tx := txs |} al = true.
 Proof.
-  intros c E S l x data cs txs Hl Hs Hp Hc. unfold classify. rewrite Hl. eexists. split; [reflexivity|].
+  intros c E S l x data g cs txs Hl Hs Hp Hc. unfold classify. rewrite Hl. eexists. split; [reflexivity|].
   eapply sat_intro.
   - apply in_or_app; right. unfold classify_env. rewrite Hs. left; reflexivity.
   - apply sat1_err; [exact Hc | exact Hp | exact I].
 Qed.
 
-Lemma env_limit_allowed : forall c E S l data cs txs,
+Lemma env_limit_allowed : forall c E S l data g cs txs,
   classify_script c S = Some l ->
-  over (c_hsize c) (e_limit E) = true \/
+  over (c_hsize c) (e_limit E) = true \/ (exists z, c_trl c = Some z /\ over z (e_limit E) = true) \/
     (c_role c = Server /\ (exists rest, S = EHeaders HOversized :: rest) /\ over SIZE_OF_431_SECTION (e_limit E) = true) ->
   prefixb data (all_data S) = true -> filter is_abort cs = [] ->
   exists al, classify c E S = Some al /\
-    sat {| ob_out := OStreamErr KHeaderTooBig None; ob_data := data; ob_calls := cs; ob_tx := txs |} al = true.
+    sat {| ob_out := OStreamErr KHeaderTooBig None; ob_data := data; ob_trl := g; ob_calls := cs; ob_tx := txs |} al = true.
 Proof.
-  intros c E S l data cs txs Hl Hov Hp Hc. unfold classify. rewrite Hl. eexists. split; [reflexivity|].
+  intros c E S l data g cs txs Hl Hov Hp Hc. unfold classify. rewrite Hl. eexists. split; [reflexivity|].
   eapply sat_intro.
   - apply in_or_app; right. unfold classify_env. apply in_or_app; right. apply in_or_app; left.
     assert (Hcond : over (c_hsize c) (e_limit E)
+             || match c_trl c with Some z => over z (e_limit E) | None => false end
              || match c_role c, S with
                 | Server, EHeaders HOversized :: _ => over SIZE_OF_431_SECTION (e_limit E)
                 | _, _ => false
                 end = true).
-    { destruct Hov as [Ho|[Hr [[rest Hrest] Ho]]]; [rewrite Ho; reflexivity|].
-      rewrite Hr, Hrest, Ho. apply orb_true_r. }
+    { destruct Hov as [Ho|[[z [Hz Ho]]|[Hr [[rest Hrest] Ho]]]]; [rewrite Ho; reflexivity | |].
+      - rewrite Hz, Ho. rewrite orb_true_r. reflexivity.
+      - rewrite Hr, Hrest, Ho. apply orb_true_r. }
     rewrite Hcond. left; reflexivity.
   - apply sat1_err; [exact Hc | exact Hp | exact I].
 Qed.
@@ -250,7 +294,7 @@ Qed.
 Lemma env_goaway_allowed : forall c E S l,
   classify_script c S = Some l -> c_role c = Client -> e_goaway E = true ->
   exists al, classify c E S = Some al /\
-    sat {| ob_out := OStreamErr KRemoteClosing None; ob_data := []; ob_calls := []; ob_tx := [] |} al = true.
+    sat {| ob_out := OStreamErr KRemoteClosing None; ob_data := []; ob_trl := false; ob_calls := []; ob_tx := [] |} al = true.
 Proof.
   intros c E S l Hl Hr Hg. unfold classify. rewrite Hl. eexists. split; [reflexivity|].
   eapply sat_intro.
@@ -275,7 +319,8 @@ Proof.
 Qed.
 
 (* ------------------------------------------------------------------ one step of the task program *)
-Definition rank (p : pc) : nat := match p with CFinish => 1%nat | _ => 0%nat end.
+Definition rank (p : pc) : nat :=
+  match p with CFinish => 3 | CRecvResp | SResolve => 2 | CRecv | SRecv => 1 | _ => 0 end%nat.
 Definition pot (r : req) : nat := (msr (fs r) + rank (pcr r))%nat.
 
 Definition step_post (E : renv) (S : list ev) (s : shared) (r : req) (out : shared * req * status) : Prop :=
@@ -294,7 +339,7 @@ Qed.
 
 Lemma done_intro : forall E S r f rs t cs al,
   classify (cfg r) E S = Some al ->
-  sat {| ob_out := outcome_of (Some rs); ob_data := acc r; ob_calls := cs; ob_tx := t |} al = true ->
+  sat {| ob_out := outcome_of (Some rs); ob_data := acc r; ob_trl := gottrl r; ob_calls := cs; ob_tx := t |} al = true ->
   phase E S (finish_with r f rs t cs).
 Proof. intros E S r f rs t cs al Hc Hs. eapply ph_done; [reflexivity | reflexivity | exact Hc | exact Hs]. Qed.
 
@@ -308,20 +353,20 @@ Lemma finish_stop : forall E S s r f a x t cs l,
 Proof.
   intros E S s r f a x t cs l Hl Hso Hst Hp Hc. unfold step_post.
   repeat split; try reflexivity; [|stop_goal].
-  destruct (env_stop_allowed (cfg r) E S l x (acc r) cs t Hl (Hso _ Hst) Hp Hc) as [al [Hal Hsat]].
+  destruct (env_stop_allowed (cfg r) E S l x (acc r) (gottrl r) cs t Hl (Hso _ Hst) Hp Hc) as [al [Hal Hsat]].
   eapply done_intro; [exact Hal | exact Hsat].
 Qed.
 
 Lemma finish_limit : forall E S s r f a t cs l,
   classify_script (cfg r) S = Some l ->
-  over (c_hsize (cfg r)) (e_limit E) = true \/
+  over (c_hsize (cfg r)) (e_limit E) = true \/ (exists z, c_trl (cfg r) = Some z /\ over z (e_limit E) = true) \/
     (c_role (cfg r) = Server /\ (exists rest, S = EHeaders HOversized :: rest) /\ over SIZE_OF_431_SECTION (e_limit E) = true) ->
   prefixb (acc r) (all_data S) = true -> filter is_abort cs = [] ->
   step_post E S s r (s, finish_with r f (RErr a SHeaderTooBig) t cs, Stop).
 Proof.
   intros E S s r f a t cs l Hl Hov Hp Hc. unfold step_post.
   repeat split; try reflexivity; [|stop_goal].
-  destruct (env_limit_allowed (cfg r) E S l (acc r) cs t Hl Hov Hp Hc) as [al [Hal Hsat]].
+  destruct (env_limit_allowed (cfg r) E S l (acc r) (gottrl r) cs t Hl Hov Hp Hc) as [al [Hal Hsat]].
   eapply done_intro; [exact Hal | exact Hsat].
 Qed.
 
@@ -333,51 +378,62 @@ Qed.
 
 Lemma exec_client_send : forall E S s r,
   env_ok E s -> stop_ok E r -> res r = None -> acc r = [] -> c_role (cfg r) = Client ->
-  pcr r = CSendReq \/ pcr r = CSendData \/ pcr r = CFinish -> sent_ok r ->
+  pcr r = CSendReq \/ pcr r = CSendData \/ pcr r = CSendTrl \/ pcr r = CFinish -> sent_ok r -> no_trl r ->
   pre_stream Client S (fs r) (todo r) ->
   step_post E S s r (exec_pc s r).
 Proof.
-  intros E S s r Henv Hso Hres Hacc Hro Hpc [Htx Hcs] Hpre.
+  intros E S s r Henv Hso Hres Hacc Hro Hpc [Htx Hcs] Hnt Hpre.
   assert (Hcl : exists l, classify_script (cfg r) S = Some l).
   { eapply pre_stream_classified. rewrite Hro. exact Hpre. }
   destruct Hcl as [l Hl].
   assert (Hpfx : prefixb (acc r) (all_data S) = true) by (rewrite Hacc; reflexivity).
-  unfold exec_pc. destruct Hpc as [Hpc|[Hpc|Hpc]]; rewrite Hpc in *; cbn [sent fst snd] in Htx, Hcs.
+  assert (Hnext : forall p t cs, pre_pc Client p -> t = fst (sent p (cfg r)) -> cs = snd (sent p (cfg r)) ->
+            phase E S (upd r (fs r) p (acc r) t cs None)).
+  { intros p t cs Hp Ht Hc. apply ph_pre; cbn; try assumption; try reflexivity.
+    - rewrite Hro. exact Hp.
+    - split; cbn; assumption.
+    - rewrite Hro. exact Hpre. }
+  unfold exec_pc. destruct Hpc as [Hpc|[Hpc|[Hpc|Hpc]]]; rewrite Hpc in *; cbn [sent fst snd] in Htx, Hcs.
   - (* send_request *)
     destruct (closing s) eqn:Hclo.
     + unfold step_post. repeat split; try reflexivity; [|stop_goal].
       destruct (env_goaway_allowed (cfg r) E S l Hl Hro (proj2 Henv Hclo)) as [al [Hal Hsat]].
-      eapply done_intro; [exact Hal|]. rewrite Hacc, Htx, Hcs. exact Hsat.
+      eapply done_intro; [exact Hal|]. rewrite Hacc, Htx, Hcs, (proj2 Hnt). exact Hsat.
     + destruct (over (c_hsize (cfg r)) (peer_max s)) eqn:Hov.
       * eapply finish_limit; [exact Hl | left; eapply over_env; eassumption | exact Hpfx | rewrite Hcs; reflexivity].
       * destruct (write_err_cases r s) as [[Hst Hw]|[c [Hst Hw]]]; rewrite Hw.
         -- unfold step_post. repeat split; try reflexivity; [|stop_goal].
-           apply ph_pre; cbn; try assumption; try reflexivity.
-           ++ rewrite Hro. exact I.
-           ++ split; cbn; [rewrite Htx; reflexivity | exact Hcs].
-           ++ rewrite Hro. exact Hpre.
+           apply Hnext; [exact I | cbn; rewrite Htx; reflexivity | exact Hcs].
         -- eapply finish_stop; [exact Hl | exact Hso | exact Hst | exact Hpfx | rewrite Hcs; reflexivity].
   - (* send_data *)
     destruct (write_err_cases r s) as [[Hst Hw]|[c [Hst Hw]]]; rewrite Hw.
     + unfold step_post. repeat split; try reflexivity; [|stop_goal].
-      apply ph_pre; cbn; try assumption; try reflexivity.
-      * rewrite Hro. exact I.
-      * split; cbn; [rewrite Htx; reflexivity | exact Hcs].
-      * rewrite Hro. exact Hpre.
+      unfold trl_items in *. destruct (c_trl (cfg r)) eqn:Hct; apply Hnext; try exact I; cbn; unfold trl_items;
+        rewrite ?Hct, ?Htx, ?app_nil_r; try reflexivity; exact Hcs.
     + change send_data_err_via_hq with true. cbn iota.
       eapply finish_stop; [exact Hl | exact Hso | exact Hst | exact Hpfx | rewrite Hcs; reflexivity].
+  - (* send_trailers *)
+    destruct (c_trl (cfg r)) as [z|] eqn:Hct.
+    + change send_trailers_limit_cmp with true. cbn [andb].
+      destruct (over z (peer_max s)) eqn:Hov.
+      * eapply finish_limit; [exact Hl | right; left; exists z; split; [exact Hct | eapply over_env; eassumption]
+                             | exact Hpfx | rewrite Hcs; reflexivity].
+      * destruct (write_err_cases r s) as [[Hst Hw]|[c [Hst Hw]]]; rewrite Hw.
+        -- unfold step_post. repeat split; try reflexivity; [|stop_goal].
+           apply Hnext; [exact I | cbn; unfold trl_items; rewrite Hct, Htx; reflexivity | exact Hcs].
+        -- change send_trailers_err_via_hq with true. cbn iota.
+           eapply finish_stop; [exact Hl | exact Hso | exact Hst | exact Hpfx | rewrite Hcs; reflexivity].
+    + unfold step_post. repeat split; try reflexivity; [|stop_goal].
+      apply (Hnext CFinish (tx r) (calls r)); [exact I | cbn; unfold trl_items; rewrite Hct, Htx; reflexivity | exact Hcs].
   - (* finish *)
     unfold step_post. repeat split; try reflexivity.
-    + apply ph_pre; cbn; try assumption; try reflexivity.
-      * rewrite Hro. exact I.
-      * split; cbn; [exact Htx | rewrite Hcs; reflexivity].
-      * rewrite Hro. exact Hpre.
+    + apply Hnext; [exact I | exact Htx | cbn; rewrite Hcs; reflexivity].
     + intros _. unfold pot. cbn. rewrite Hpc. cbn. lia.
 Qed.
 
 Lemma finish_script : forall E S s r f rs t cs l a,
   classify_script (cfg r) S = Some l -> In a l ->
-  sat1 {| ob_out := outcome_of (Some rs); ob_data := acc r; ob_calls := cs; ob_tx := t |} a = true ->
+  sat1 {| ob_out := outcome_of (Some rs); ob_data := acc r; ob_trl := gottrl r; ob_calls := cs; ob_tx := t |} a = true ->
   step_post E S s r (s, finish_with r f rs t cs, Stop).
 Proof.
   intros E S s r f rs t cs l a Hl Hin Hs. unfold step_post.
@@ -401,10 +457,10 @@ Qed.
 (* server: resolve_request while nothing of the message has been consumed *)
 Lemma exec_server_resolve : forall E S s r,
   env_ok E s -> stop_ok E r -> res r = None -> acc r = [] -> c_role (cfg r) = Server ->
-  pcr r = SResolve -> sent_ok r -> pre_stream Server S (fs r) (todo r) ->
+  pcr r = SResolve -> sent_ok r -> no_trl r -> pre_stream Server S (fs r) (todo r) ->
   step_post E S s r (exec_pc s r).
 Proof.
-  intros E S s r Henv Hso Hres Hacc Hro Hpc [Htx Hcs] Hpre.
+  intros E S s r Henv Hso Hres Hacc Hro Hpc [Htx Hcs] Hnt Hpre.
   assert (Hcl : exists l, classify_script (cfg r) S = Some l).
   { eapply pre_stream_classified. rewrite Hro. exact Hpre. }
   destruct Hcl as [l Hl].
@@ -427,7 +483,7 @@ Proof.
       eapply finish_script with (l := [_]); [cbn; rewrite Hro; reflexivity | left; reflexivity|].
       apply sat1_err; [rewrite Hcs; reflexivity | rewrite Hacc; reflexivity | exact Htx].
     + (* HEADERS *)
-      destruct Hpn as (Hk & body & d & e & HS & Hbody & Hok & Hrem & Hp' & Hm). subst k.
+      destruct Hpn as (Hk & body & d & e & HS & Hbody & Hge & Hok & Hrem & Hp' & Hm). subst k.
       unfold step_post. repeat split; try reflexivity.
       * eapply (ph_body E S _ body d e d); cbn; try assumption; try reflexivity.
         -- rewrite Hro. reflexivity.
@@ -463,7 +519,7 @@ Proof.
         change srv_toobig_sends_response with true. cbn iota.
         destruct (over SIZE_OF_431_SECTION (peer_max s)) eqn:Hov.
         -- eapply finish_limit; [exact Hl | | exact Hpfx | rewrite Hcs; reflexivity].
-           right. split; [exact Hro|]. split; [eexists; reflexivity|]. eapply over_env; eassumption.
+           right; right. split; [exact Hro|]. split; [eexists; reflexivity|]. eapply over_env; eassumption.
         -- destruct (write_err_cases r s) as [[Hst Hw]|[c [Hst Hw]]]; rewrite Hw.
            ++ change srv_toobig_stores with false. cbn iota.
               eapply finish_script; [cbn; rewrite Hro; reflexivity | left; reflexivity|].
@@ -474,10 +530,10 @@ Qed.
 (* client: recv_response while nothing of the response has been consumed *)
 Lemma exec_client_recv_response : forall E S s r,
   env_ok E s -> stop_ok E r -> res r = None -> acc r = [] -> c_role (cfg r) = Client ->
-  pcr r = CRecvResp -> sent_ok r -> pre_stream Client S (fs r) (todo r) ->
+  pcr r = CRecvResp -> sent_ok r -> no_trl r -> pre_stream Client S (fs r) (todo r) ->
   step_post E S s r (exec_pc s r).
 Proof.
-  intros E S s r Henv Hso Hres Hacc Hro Hpc [Htx Hcs] Hpre.
+  intros E S s r Henv Hso Hres Hacc Hro Hpc [Htx Hcs] Hnt Hpre.
   assert (Hcl : exists l, classify_script (cfg r) S = Some l).
   { eapply pre_stream_classified. rewrite Hro. exact Hpre. }
   destruct Hcl as [l Hl].
@@ -492,7 +548,7 @@ Proof.
       * split; cbn; assumption.
       * rewrite Hro. left. repeat split; try assumption; try apply Hfs'. rewrite Hp'. exact Hpend.
     + destruct Hpn as [_ Hf]. discriminate Hf.
-    + destruct Hpn as (Hk & body & d & e & HS & Hbody & Hok & Hrem & Hp' & Hm). subst k.
+    + destruct Hpn as (Hk & body & d & e & HS & Hbody & Hge & Hok & Hrem & Hp' & Hm). subst k.
       unfold step_post. repeat split; try reflexivity.
       * eapply (ph_body E S _ body d e d); cbn; try assumption; try reflexivity.
         -- rewrite Hro. reflexivity.
@@ -527,92 +583,243 @@ Qed.
 (* both roles: recv_data inside the body *)
 Lemma exec_recv_body : forall E S s r body D e d',
   env_ok E s -> stop_ok E r ->
-  S = EHeaders HOk :: body -> body_ok 0 body D e ->
-  res r = None -> pcr r = recv_pc (c_role (cfg r)) -> sent_ok r -> fs_ok (fs r) ->
+  S = EHeaders HOk :: body -> body_ok 0 body D e -> good_end e ->
+  res r = None -> pcr r = recv_pc (c_role (cfg r)) -> sent_ok r -> no_trl r -> fs_ok (fs r) ->
   body_ok (remaining (fs r)) (pend (fs r) ++ todo r) d' e -> acc r ++ d' = D ->
   step_post E S s r (exec_pc s r).
 Proof.
-  intros E S s r body D e d' Henv Hso HS Hbody Hres Hpc [Htx Hcs] Hok Hb Hacc.
+  intros E S s r body D e d' Henv Hso HS Hbody Hge Hres Hpc [Htx Hcs] [Hnt1 Hnt2] Hok Hb Hacc.
   destruct (classify_msg (cfg r) body D e Hbody) as [Hall Hcl]. rewrite <- HS in Hall, Hcl.
   pose proof (poll_recv_data_body s (fs r) (todo r) d' e Hok Hb) as Hrd.
+  set (tp := trl_pc (c_role (cfg r))).
   assert (Hexec : exec_pc s r =
     match poll_recv_data s (fs r) with
     | (RdPending, sh', f) => (sh', goto r f (pcr r), Stop)
     | (RdSome d, sh', f) => (sh', upd r f (pcr r) (acc r ++ d) (tx r) (calls r) None, Continue)
-    | (RdNone, sh', f) =>
-        match pcr r with
-        | SRecv => (sh', goto r f SSendResp, Stop)
-        | _ => (sh', finish_with r f ROk (tx r) (calls r), Stop)
-        end
+    | (RdNone, sh', f) => (sh', goto r f tp, Continue)
+    | (RdTrailers k, sh', f) => (sh', set_trl (goto r f tp) (Some k) (gottrl r), Continue)
     | (RdErr e, sh', f) => (sh', finish_with r f (RErr ARecv e) (tx r) (calls r), Stop)
     | (RdPanic n, sh', f) => (sh', finish_with r f (RPanic n) (tx r) (calls r), Stop)
     | (RdUnmodelled, sh', f) => (sh', finish_with r f RUnmodelled (tx r) (calls r), Stop)
     end).
-  { unfold exec_pc. rewrite Hpc. destruct (c_role (cfg r)); reflexivity. }
+  { unfold exec_pc, tp. rewrite Hpc. destruct (c_role (cfg r)); reflexivity. }
   rewrite Hexec. clear Hexec.
   assert (Hab : filter is_abort (calls r) = []).
   { rewrite Hcs, Hpc. destruct (c_role (cfg r)); reflexivity. }
-  destruct (poll_recv_data s (fs r)) as [[[|bs| |er|n|] s'] f']; cbn [rd_post] in Hrd; try contradiction.
+  assert (Hsent_tp : fst (sent tp (cfg r)) = tx r /\ snd (sent tp (cfg r)) = calls r).
+  { rewrite Htx, Hcs, Hpc. unfold tp. destruct (c_role (cfg r)); split; reflexivity. }
+  assert (Hrank : forall f1, (msr f1 <= msr (fs r))%nat -> (msr f1 + rank tp < pot r)%nat).
+  { intros f1 Hm. unfold pot. rewrite Hpc. unfold tp. destruct (c_role (cfg r)); cbn; lia. }
+  destruct (poll_recv_data s (fs r)) as [[[|bs| |k|er|n|] s'] f']; cbn [rd_post] in Hrd; try contradiction.
   - (* pending *)
     destruct Hrd as (Hs & Hok' & Hb' & Hm & Hrx). subst s'.
     unfold step_post. repeat split; try reflexivity; [|stop_goal].
-    eapply (ph_body E S _ body D e d'); cbn; try assumption; try reflexivity.
-    split; cbn; assumption.
+    eapply (ph_body E S _ body D e d'); cbn; try assumption; try reflexivity; split; cbn; assumption.
   - (* some bytes *)
     destruct Hrd as (Hs & Hok' & Hm & d'' & Hd & Hb'). subst s'.
     unfold step_post. repeat split; try reflexivity.
     + eapply (ph_body E S _ body D e d''); cbn; try assumption; try reflexivity.
       * split; cbn; assumption.
+      * split; cbn; assumption.
       * rewrite <- app_assoc, <- Hd. exact Hacc.
     + intros _. unfold pot. cbn. lia.
-  - (* end of the body *)
-    destruct Hrd as (Hs & He & Hd). subst s' e d'. rewrite app_nil_r in Hacc.
-    destruct (c_role (cfg r)) eqn:Hro; cbn [recv_pc] in Hpc; rewrite Hpc in *.
-    + unfold step_post. repeat split; try reflexivity; [|stop_goal].
-      eapply (ph_send E S _ body D); cbn; try assumption; try reflexivity.
-      * left; reflexivity.
-      * split; cbn; assumption.
-    + cbn [sent fst snd] in Htx, Hcs.
-      eapply finish_script; [exact Hcl | left; reflexivity|].
-      cbn [sat1 outcome_of ob_out ob_data ob_tx ob_calls]. rewrite Hacc, Htx, Hcs.
-      unfold healthy_tx. rewrite Hro.
-      rewrite bytes_eqb_refl, (list_eqb_refl _ _ witem_eqb_refl), (list_eqb_refl _ _ call_eqb_refl). reflexivity.
+  - (* end of the body, no trailers *)
+    destruct Hrd as (Hs & He & Hd & Hok' & Heos & Hbuf & Hrem & Hm). subst s' e d'. rewrite app_nil_r in Hacc.
+    unfold step_post. repeat split; try reflexivity.
+    + eapply (ph_trl E S _ body D EndFin); cbn; try assumption; try reflexivity.
+      * split; cbn; symmetry; apply Hsent_tp.
+      * left. repeat split; assumption.
+    + intros _. unfold pot at 1. cbn. apply Hrank. exact Hm.
+  - (* a trailer section ends the body *)
+    destruct Hrd as (Hs & Hd & Hok' & Hrem & Htail & Hm). subst s' d'. rewrite app_nil_r in Hacc.
+    unfold step_post. repeat split; try reflexivity.
+    + eapply (ph_trl E S _ body D e); cbn; try assumption; try reflexivity.
+      * split; cbn; symmetry; apply Hsent_tp.
+      * right. exists k. split; [reflexivity | exact Htail].
+    + intros _. unfold pot at 1. cbn. apply Hrank. lia.
   - (* reset *)
     destruct Hrd as (Hs & c & He & Her). subst s' e er.
     eapply finish_script; [exact Hcl | left; reflexivity|].
     apply sat1_err; [exact Hab | rewrite <- Hacc; apply prefixb_app | exact I].
 Qed.
 
-(* server: answering after a complete request *)
-Lemma exec_server_send : forall E S s r body D,
+(* ---- recv_trailers *)
+Lemma gen_trl_facts :
+  trl_waits_for_end = true /\ trl_malformed_stores = false /\ trl_toobig_stores = false /\
+  trl_malformed_variant = VStreamError /\ trl_toobig_variant = VHeaderTooBig /\
+  trl_malformed_code = RFC_H3_MESSAGE_ERROR /\ trl_malformed_stop = Some RFC_H3_MESSAGE_ERROR /\
+  cli_trl_toobig_stop = Some RFC_H3_REQUEST_CANCELLED /\
+  send_trailers_limit_cmp = true /\ send_trailers_err_via_hq = true.
+Proof. repeat split; reflexivity. Qed.
+
+(* what happens once the stream has ended behind a trailer section k *)
+Lemma exec_trl_decode : forall E S s r body D k f1,
+  S = EHeaders HOk :: body -> body_ok 0 body D (EndFinT k) -> good_end (EndFinT k) ->
+  res r = None -> pcr r = trl_pc (c_role (cfg r)) -> sent_ok r -> gottrl r = false -> acc r = D ->
+  step_post E S s r
+    (match trailers_decode (pcr r) k s f1 with
+     | (TrPending o, sh', f) => (sh', set_trl (goto r f (pcr r)) o (gottrl r), Stop)
+     | (TrDone got, sh', f) =>
+         match pcr r with
+         | SRecvTrl => (sh', set_trl (goto r f SSendResp) None got, Stop)
+         | _ => (sh', set_trl (finish_with r f ROk (tx r) (calls r)) None got, Stop)
+         end
+     | (TrErr e cs, sh', f) => (sh', finish_with r f (RErr ARecvTrl e) (tx r) (calls r ++ cs), Stop)
+     | (TrPanic n, sh', f) => (sh', finish_with r f (RPanic n) (tx r) (calls r), Stop)
+     | (TrUnmodelled, sh', f) => (sh', finish_with r f RUnmodelled (tx r) (calls r), Stop)
+     end).
+Proof.
+  intros E S s r body D k f1 HS Hbody Hge Hres Hpc [Htx Hcs] Hgot Hacc.
+  destruct (classify_msg (cfg r) body D _ Hbody) as [Hall Hcl]. rewrite <- HS in Hall, Hcl.
+  unfold trailers_decode.
+  destruct k.
+  - (* a good trailer section *)
+    destruct (c_role (cfg r)) eqn:Hro; cbn [trl_pc] in Hpc; rewrite Hpc in *; cbn [sent fst snd] in Htx, Hcs.
+    + unfold step_post. repeat split; try reflexivity; [|stop_goal].
+      eapply (ph_send E S _ body D (EndFinT HOk)); cbn; try assumption; try reflexivity.
+      * right. split; reflexivity.
+      * left; reflexivity.
+      * split; cbn; assumption.
+    + unfold step_post. repeat split; try reflexivity; [|stop_goal].
+      eapply ph_done; cbn; try reflexivity.
+      * unfold classify. rewrite Hcl. cbn [msg_allowances]. reflexivity.
+      * eapply sat_intro; [left; reflexivity|].
+        cbn [sat1 observe outcome_of ob_out ob_data ob_tx ob_calls ob_trl set_trl finish_with upd acc tx calls res gottrl].
+        rewrite Hacc, Htx, Hcs. unfold healthy_tx, trl_items. rewrite Hro.
+        rewrite bytes_eqb_refl, (list_eqb_refl _ _ witem_eqb_refl), (list_eqb_refl _ _ call_eqb_refl). reflexivity.
+  - (* malformed *)
+    change trl_malformed_stores with false. cbn iota.
+    eapply finish_script; [exact Hcl | left; reflexivity|].
+    destruct (c_role (cfg r)) eqn:Hro; cbn [trl_pc] in Hpc; rewrite Hpc in *; cbn [sent fst snd] in Htx, Hcs;
+      (apply sat1_err; [rewrite Hcs; reflexivity | rewrite Hacc; apply prefixb_refl | try exact Htx; try exact I]).
+  - (* oversized *)
+    change trl_toobig_stores with false. cbn iota.
+    destruct (c_role (cfg r)) eqn:Hro; cbn [trl_pc] in Hpc; rewrite Hpc in *; cbn [sent fst snd] in Htx, Hcs.
+    + cbn [msg_allowances] in Hcl. rewrite Hro in Hcl.
+      eapply finish_script; [exact Hcl | left; reflexivity|].
+      apply sat1_err; [rewrite Hcs; reflexivity | rewrite Hacc; apply prefixb_refl | exact Htx].
+    + cbn [msg_allowances] in Hcl. rewrite Hro in Hcl.
+      eapply finish_script; [exact Hcl | left; reflexivity|].
+      apply sat1_err; [rewrite Hcs; reflexivity | rewrite Hacc; apply prefixb_refl | exact I].
+  - contradiction Hge; reflexivity.
+Qed.
+
+Lemma exec_recv_trl : forall E S s r body D e,
   env_ok E s -> stop_ok E r ->
-  S = EHeaders HOk :: body -> body_ok 0 body D EndFin ->
+  S = EHeaders HOk :: body -> body_ok 0 body D e -> good_end e ->
+  res r = None -> pcr r = trl_pc (c_role (cfg r)) -> sent_ok r -> gottrl r = false ->
+  fs_ok (fs r) -> remaining (fs r) = 0 -> trl_state r e -> acc r = D ->
+  step_post E S s r (exec_pc s r).
+Proof.
+  intros E S s r body D e Henv Hso HS Hbody Hge Hres Hpc Hsent Hgot Hok Hrem Hst Hacc.
+  destruct (classify_msg (cfg r) body D e Hbody) as [Hall Hcl]. rewrite <- HS in Hall, Hcl.
+  assert (Hexec : exec_pc s r =
+    match recv_trailers s (pcr r) (trl r) (fs r) with
+    | (TrPending o, sh', f) => (sh', set_trl (goto r f (pcr r)) o (gottrl r), Stop)
+    | (TrDone got, sh', f) =>
+        match pcr r with
+        | SRecvTrl => (sh', set_trl (goto r f SSendResp) None got, Stop)
+        | _ => (sh', set_trl (finish_with r f ROk (tx r) (calls r)) None got, Stop)
+        end
+    | (TrErr e cs, sh', f) => (sh', finish_with r f (RErr ARecvTrl e) (tx r) (calls r ++ cs), Stop)
+    | (TrPanic n, sh', f) => (sh', finish_with r f (RPanic n) (tx r) (calls r), Stop)
+    | (TrUnmodelled, sh', f) => (sh', finish_with r f RUnmodelled (tx r) (calls r), Stop)
+    end).
+  { unfold exec_pc. rewrite Hpc. destruct (c_role (cfg r)); reflexivity. }
+  rewrite Hexec. clear Hexec.
+  destruct Hst as [(Htrl & He & Heos & Hbuf)|(k & Htrl & Htail)]; rewrite Htrl.
+  - (* the body ended with FIN: there are no trailers *)
+    subst e. cbn [recv_trailers]. rewrite (poll_next_at_end _ Heos Hbuf Hrem).
+    destruct Hsent as [Htx Hcs].
+    destruct (c_role (cfg r)) eqn:Hro; cbn [trl_pc] in Hpc; rewrite Hpc in *; cbn [sent fst snd] in Htx, Hcs.
+    + unfold step_post. repeat split; try reflexivity; [|stop_goal].
+      eapply (ph_send E S _ body D EndFin); cbn; try assumption; try reflexivity.
+      * left. split; reflexivity.
+      * left; reflexivity.
+      * split; cbn; assumption.
+    + unfold step_post. repeat split; try reflexivity; [|stop_goal].
+      eapply ph_done; cbn; try reflexivity.
+      * unfold classify. rewrite Hcl. cbn [msg_allowances]. reflexivity.
+      * eapply sat_intro; [left; reflexivity|].
+        cbn [sat1 observe outcome_of ob_out ob_data ob_tx ob_calls ob_trl set_trl finish_with upd acc tx calls res gottrl].
+        rewrite Hacc, Htx, Hcs. unfold healthy_tx, trl_items. rewrite Hro.
+        rewrite bytes_eqb_refl, (list_eqb_refl _ _ witem_eqb_refl), (list_eqb_refl _ _ call_eqb_refl). reflexivity.
+  - (* a trailer frame is held: wait for the end of the stream *)
+    cbn [recv_trailers]. unfold trailers_tail. change trl_waits_for_end with true. cbn [andb].
+    destruct (eos (fs r) && match buf (fs r) with [] => true | _ => false end) eqn:Hend; cbn [negb].
+    + (* the end was already seen *)
+      apply andb_true_iff in Hend. destruct Hend as [Heos Hbuf].
+      assert (Hb0 : buf (fs r) = []) by (destruct (buf (fs r)); [reflexivity | discriminate Hbuf]).
+      destruct Hok as [_ He]. destruct (He Heos) as [q Hq].
+      assert (He' : e = EndFinT k).
+      { unfold pend in Htail. rewrite Hb0, Hq in Htail. cbn [app] in Htail.
+        destruct Htail as [[_ H]|[[c [H _]]|[c [H _]]]]; [exact H | discriminate H | discriminate H]. }
+      subst e. eapply exec_trl_decode; eassumption.
+    + pose proof (pn_tail (fs r) (todo r) e k Hok Hrem Htail) as Hpn.
+      destruct (poll_next (fs r)) as [[| |k'|t|c| | |n] f1]; cbn [pn_tail_post] in Hpn; try contradiction.
+      * (* still open *)
+        destruct Hpn as (Hok1 & Hrem1 & Hp1 & Hrx1).
+        unfold step_post. repeat split; try reflexivity; [|stop_goal].
+        eapply (ph_trl E S _ body D e); cbn; try assumption; try reflexivity.
+        right. exists k. split; [reflexivity|]. cbn. rewrite Hp1. exact Htail.
+      * subst e. eapply exec_trl_decode; eassumption.
+      * (* reset behind the trailers *)
+        subst e. rewrite fse_quic_eq.
+        destruct Hsent as [Htx Hcs].
+        eapply finish_script; [exact Hcl | left; reflexivity|].
+        apply sat1_err; [|rewrite Hacc; apply prefixb_refl | exact I].
+        rewrite app_nil_r, Hcs, Hpc. destruct (c_role (cfg r)); reflexivity.
+Qed.
+
+(* server: answering after a complete request *)
+Lemma exec_server_send : forall E S s r body D e,
+  env_ok E s -> stop_ok E r ->
+  S = EHeaders HOk :: body -> body_ok 0 body D e ->
+  (e = EndFin /\ gottrl r = false) \/ (e = EndFinT HOk /\ gottrl r = true) ->
   res r = None -> c_role (cfg r) = Server -> send_pc (pcr r) -> sent_ok r -> acc r = D ->
   step_post E S s r (exec_pc s r).
 Proof.
-  intros E S s r body D Henv Hso HS Hbody Hres Hro Hpc [Htx Hcs] Hacc.
-  destruct (classify_msg (cfg r) body D EndFin Hbody) as [Hall Hcl]. rewrite <- HS in Hall, Hcl.
+  intros E S s r body D e Henv Hso HS Hbody Hend Hres Hro Hpc [Htx Hcs] Hacc.
+  destruct (classify_msg (cfg r) body D e Hbody) as [Hall Hcl]. rewrite <- HS in Hall, Hcl.
+  assert (Hcl' : classify_script (cfg r) S = Some [AOk D (healthy_tx (cfg r)) (gottrl r)]).
+  { rewrite Hcl. destruct Hend as [[He Hg]|[He Hg]]; subst e; rewrite Hg; reflexivity. }
   assert (Hpfx : prefixb (acc r) (all_data S) = true) by (rewrite Hall, Hacc; apply prefixb_refl).
-  unfold exec_pc. destruct Hpc as [Hpc|[Hpc|Hpc]]; rewrite Hpc in *; cbn [sent fst snd] in Htx, Hcs.
+  assert (Hcalls : calls r = []) by (destruct Hpc as [H|[H|[H|H]]]; rewrite H in Hcs; exact Hcs).
+  assert (Hnext : forall p t, send_pc p -> t = fst (sent p (cfg r)) -> snd (sent p (cfg r)) = [] ->
+            phase E S (upd r (fs r) p (acc r) t (calls r) None)).
+  { intros p t Hp Ht Hc. eapply (ph_send E S _ body D e); cbn; try assumption; try reflexivity.
+    split; cbn; [exact Ht | rewrite Hc; exact Hcalls]. }
+  unfold exec_pc. destruct Hpc as [Hpc|[Hpc|[Hpc|Hpc]]]; rewrite Hpc in *; cbn [sent fst snd] in Htx, Hcs.
   - destruct (over (c_hsize (cfg r)) (peer_max s)) eqn:Hov.
-    + eapply finish_limit; [exact Hcl | left; eapply over_env; eassumption | exact Hpfx | rewrite Hcs; reflexivity].
+    + eapply finish_limit; [exact Hcl' | left; eapply over_env; eassumption | exact Hpfx | rewrite Hcs; reflexivity].
     + destruct (write_err_cases r s) as [[Hst Hw]|[c [Hst Hw]]]; rewrite Hw.
       * unfold step_post. repeat split; try reflexivity; [|stop_goal].
-        eapply (ph_send E S _ body D); cbn; try assumption; try reflexivity.
-        -- right; left; reflexivity.
-        -- split; cbn; [rewrite Htx; reflexivity | exact Hcs].
-      * eapply finish_stop; [exact Hcl | exact Hso | exact Hst | exact Hpfx | rewrite Hcs; reflexivity].
+        apply Hnext; [right; left; reflexivity | cbn; rewrite Htx; reflexivity | reflexivity].
+      * eapply finish_stop; [exact Hcl' | exact Hso | exact Hst | exact Hpfx | rewrite Hcs; reflexivity].
   - destruct (write_err_cases r s) as [[Hst Hw]|[c [Hst Hw]]]; rewrite Hw.
     + unfold step_post. repeat split; try reflexivity; [|stop_goal].
-      eapply (ph_send E S _ body D); cbn; try assumption; try reflexivity.
-      * right; right; reflexivity.
-      * split; cbn; [rewrite Htx; reflexivity | exact Hcs].
+      unfold trl_items in *. destruct (c_trl (cfg r)) eqn:Hct; apply Hnext;
+        try (right; right; left; reflexivity); try (right; right; right; reflexivity);
+        cbn; unfold trl_items; rewrite ?Hct, ?Htx, ?app_nil_r; reflexivity.
     + change send_data_err_via_hq with true. cbn iota.
-      eapply finish_stop; [exact Hcl | exact Hso | exact Hst | exact Hpfx | rewrite Hcs; reflexivity].
-  - eapply finish_script; [exact Hcl | left; reflexivity|].
-    cbn [sat1 outcome_of ob_out ob_data ob_tx ob_calls]. rewrite Hacc, Htx, Hcs.
-    unfold healthy_tx. rewrite Hro. cbn [app].
-    rewrite bytes_eqb_refl, (list_eqb_refl _ _ witem_eqb_refl), (list_eqb_refl _ _ call_eqb_refl). reflexivity.
+      eapply finish_stop; [exact Hcl' | exact Hso | exact Hst | exact Hpfx | rewrite Hcs; reflexivity].
+  - (* send_trailers *)
+    destruct (c_trl (cfg r)) as [z|] eqn:Hct.
+    + change send_trailers_limit_cmp with true. cbn [andb].
+      destruct (over z (peer_max s)) eqn:Hov.
+      * eapply finish_limit; [exact Hcl' | right; left; exists z; split; [exact Hct | eapply over_env; eassumption]
+                             | exact Hpfx | rewrite Hcs; reflexivity].
+      * destruct (write_err_cases r s) as [[Hst Hw]|[c [Hst Hw]]]; rewrite Hw.
+        -- unfold step_post. repeat split; try reflexivity; [|stop_goal].
+           apply Hnext; [right; right; right; reflexivity | cbn; unfold trl_items; rewrite Hct, Htx; reflexivity | reflexivity].
+        -- change send_trailers_err_via_hq with true. cbn iota.
+           eapply finish_stop; [exact Hcl' | exact Hso | exact Hst | exact Hpfx | rewrite Hcs; reflexivity].
+    + unfold step_post. repeat split; try reflexivity; [|stop_goal].
+      apply (Hnext SFinish (tx r)); [right; right; right; reflexivity | cbn; unfold trl_items; rewrite Hct, Htx; reflexivity | reflexivity].
+  - eapply finish_script; [exact Hcl' | left; reflexivity|].
+    cbn [sat1 outcome_of ob_out ob_data ob_tx ob_calls ob_trl]. rewrite Hacc, Htx, Hcs.
+    unfold healthy_tx, trl_items. rewrite Hro. cbn [app].
+    rewrite bytes_eqb_refl, (list_eqb_refl _ _ witem_eqb_refl), (list_eqb_refl _ _ call_eqb_refl), Bool.eqb_reflx. reflexivity.
 Qed.
 
 Lemma step_post_idle : forall E S s r, phase E S r -> step_post E S s r (s, r, Stop).
@@ -622,18 +829,21 @@ Theorem exec_pc_inv : forall E S s r,
   env_ok E s -> stop_ok E r -> phase E S r -> step_post E S s r (exec_pc s r).
 Proof.
   intros E S s r Henv Hso Hph.
-  destruct Hph as [Hres Hacc Hpre Hsent Hstream|body D e d' HS Hbody Hres Hpc Hsent Hok Hb Hacc
-                  |body D HS Hbody Hres Hro Hpc Hsent Hacc|al x Hres Hpc Hcl Hsat].
+  destruct Hph as [Hres Hacc Hpre Hsent Hnt Hstream|body D e d' HS Hbody Hge Hres Hpc Hsent Hnt Hok Hb Hacc
+                  |body D e HS Hbody Hge Hres Hpc Hsent Hgot Hok Hrem Hst Hacc
+                  |body D e HS Hbody Hend Hres Hro Hpc Hsent Hacc|al x Hres Hpc Hcl Hsat].
   - destruct (c_role (cfg r)) eqn:Hro; destruct (pcr r) eqn:Hpc; cbn [pre_pc] in Hpre; try contradiction.
-    + (* SWait *) 
+    + (* SWait *)
       assert (Hex : exec_pc s r = (s, r, Stop)) by (unfold exec_pc; rewrite Hpc; reflexivity).
       rewrite Hex. apply step_post_idle. apply ph_pre; try assumption; rewrite ?Hro, ?Hpc; try assumption; try exact I.
     + apply exec_server_resolve; try assumption.
     + apply exec_client_send; try assumption. left; exact Hpc.
     + apply exec_client_send; try assumption. right; left; exact Hpc.
-    + apply exec_client_send; try assumption. right; right; exact Hpc.
+    + apply exec_client_send; try assumption. right; right; left; exact Hpc.
+    + apply exec_client_send; try assumption. right; right; right; exact Hpc.
     + apply exec_client_recv_response; try assumption.
   - eapply exec_recv_body; eassumption.
+  - eapply exec_recv_trl; eassumption.
   - eapply exec_server_send; eassumption.
   - assert (Hex : exec_pc s r = (s, r, Stop)) by (unfold exec_pc; rewrite Hpc; reflexivity).
     rewrite Hex. apply step_post_idle. eapply ph_done; eassumption.
@@ -677,12 +887,23 @@ Lemma push_rx_cases : forall e f,
   push_rx e f = f \/ push_rx e f = {| buf := buf f; remaining := remaining f; eos := eos f; rx := rx f ++ [e] |}.
 Proof. intros e f. unfold push_rx. destruct (last (rx f) EPartial); auto. Qed.
 
+Lemma tail_ok_terminal_last : forall q e k, tail_ok q e k ->
+  forall a x b, q = a ++ x :: b -> b <> [] -> is_chunk x.
+Proof.
+  intros q e k [[Hq _]|[[c [Hq _]]|[c [Hq _]]]] a x b Heq Hb; subst q.
+  - destruct a as [|y a']; cbn in Heq; injection Heq as Hy Hr; [subst b; contradiction Hb; reflexivity | destruct a'; discriminate Hr].
+  - destruct a as [|y a']; cbn in Heq; injection Heq as Hy Hr; [subst b; contradiction Hb; reflexivity | destruct a'; discriminate Hr].
+  - destruct a as [|y a']; cbn in Heq; injection Heq as Hy Hr; [subst x; exact I|].
+    destruct a' as [|z a'']; cbn in Hr; injection Hr as Hz Hr; [subst b; contradiction Hb; reflexivity | destruct a''; discriminate Hr].
+Qed.
+
 Lemma deliver_phase : forall E S r e t,
   todo r = e :: t -> phase E S r -> phase E S (with_fs r (push_rx e (fs r)) t).
 Proof.
   intros E S r e t Htodo Hph.
-  destruct Hph as [Hres Hacc Hpre Hsent Hstream|body D e0 d' HS Hbody Hres Hpc Hsent Hok Hb Hacc
-                  |body D HS Hbody Hres Hro Hpc Hsent Hacc|al x Hres Hpc Hcl Hsat].
+  destruct Hph as [Hres Hacc Hpre Hsent Hnt Hstream|body D e0 d' HS Hbody Hge Hres Hpc Hsent Hnt Hok Hb Hacc
+                  |body D e0 HS Hbody Hge Hres Hpc Hsent Hgot Hok Hrem Hst Hacc
+                  |body D e0 HS Hbody Hend Hres Hro Hpc Hsent Hacc|al x Hres Hpc Hcl Hsat].
   - apply ph_pre; cbn; try assumption.
     destruct Hstream as [(Hg & Hfs & Hpend)|(k & rest & HS & Hk & Hbuf & Hr & He & Hrx)].
     + left. rewrite Htodo in Hpend.
@@ -714,7 +935,25 @@ Proof.
     + destruct Hok as [Hc He]. split; cbn; [exact Hc|].
       intros Heos. destruct (He Heos) as [q Hq]. rewrite Hq. cbn [app]. eexists; reflexivity.
     + unfold pend in *. cbn [buf rx]. rewrite <- !app_assoc in *. exact Hb.
-  - eapply (ph_send E S _ body D); cbn; eassumption.
+  - (* between the body and the trailers' verdict *)
+    destruct Hst as [(Htrl & He0 & Heos & Hbuf)|(k & Htrl & Htail)].
+    + eapply (ph_trl E S _ body D e0); cbn; try assumption.
+      * destruct (push_rx_cases e (fs r)) as [Hp|Hp]; rewrite Hp; [exact Hok|].
+        destruct Hok as [Hc He]. split; cbn; [exact Hc|].
+        intros Hx. destruct (He Hx) as [q Hq]. rewrite Hq. cbn [app]. eexists; reflexivity.
+      * destruct (push_rx_cases e (fs r)) as [Hp|Hp]; rewrite Hp; [exact Hrem | exact Hrem].
+      * left. destruct (push_rx_cases e (fs r)) as [Hp|Hp]; rewrite Hp; cbn; repeat split; assumption.
+    + rewrite Htodo in Htail.
+      assert (Hlast : is_chunk (last (rx (fs r)) EPartial)).
+      { apply last_is_chunk. intros a x Hax.
+        eapply (tail_ok_terminal_last _ _ _ Htail (buf (fs r) ++ a) x (e :: t)); [|discriminate].
+        unfold pend. rewrite Hax, <- !app_assoc. reflexivity. }
+      rewrite (push_rx_chunk e _ Hlast).
+      eapply (ph_trl E S _ body D e0); cbn; try assumption.
+      * destruct Hok as [Hc He]. split; cbn; [exact Hc|].
+        intros Hx. destruct (He Hx) as [q Hq]. rewrite Hq. cbn [app]. eexists; reflexivity.
+      * right. exists k. split; [exact Htrl|]. cbn. unfold pend in *. cbn [buf rx]. rewrite <- !app_assoc in *. exact Htail.
+  - eapply (ph_send E S _ body D e0); cbn; eassumption.
   - eapply ph_done; cbn; eassumption.
 Qed.
 
@@ -730,13 +969,15 @@ Proof.
     destruct (pcr r) eqn:Hpc; try (repeat split; assumption).
     destruct (drv s); [repeat split; assumption|].
     repeat split; try assumption.
-    destruct Hph as [Hres Hacc Hpre Hsent Hstream|body D e0 d' HS Hbody Hres Hpc' Hsent Hok Hb Hacc
-                    |body D HS Hbody Hres Hro Hpc' Hsent Hacc|al x Hres Hpc' Hcl Hsat].
+    destruct Hph as [Hres Hacc Hpre Hsent Hnt Hstream|body D e0 d' HS Hbody Hge Hres Hpc' Hsent Hnt Hok Hb Hacc
+                    |body D e0 HS Hbody Hge Hres Hpc' Hsent Hgot Hok Hrem Hst Hacc
+                    |body D e0 HS Hbody Hend Hres Hro Hpc' Hsent Hacc|al x Hres Hpc' Hcl Hsat].
     + apply ph_pre; cbn; try assumption.
       * rewrite Hpc in Hpre. destruct (c_role (cfg r)); [exact I | contradiction].
       * destruct Hsent as [H1 H2]. rewrite Hpc in H1, H2. split; cbn; assumption.
     + rewrite Hpc in Hpc'. destruct (c_role (cfg r)); discriminate Hpc'.
-    + rewrite Hpc in Hpc'. destruct Hpc' as [H|[H|H]]; discriminate H.
+    + rewrite Hpc in Hpc'. destruct (c_role (cfg r)); discriminate Hpc'.
+    + rewrite Hpc in Hpc'. destruct Hpc' as [H|[H|[H|H]]]; discriminate H.
     + rewrite Hpc in Hpc'. discriminate Hpc'.
   - (* Deliver *)
     destruct (todo r) as [|e t] eqn:Htodo; [repeat split; assumption|].
@@ -746,11 +987,13 @@ Proof.
     + intros x. cbn. destruct (stopped r) as [c0|] eqn:Hst.
       * intros Hx. apply Hso. rewrite Hst. exact Hx.
       * intros Hx. injection Hx as Hx. subst x. eapply Hact. reflexivity.
-    + destruct Hph as [Hres Hacc Hpre Hsent Hstream|body D e0 d' HS Hbody Hres Hpc' Hsent Hok Hb Hacc
-                      |body D HS Hbody Hres Hro Hpc' Hsent Hacc|al x Hres Hpc' Hcl Hsat].
+    + destruct Hph as [Hres Hacc Hpre Hsent Hnt Hstream|body D e0 d' HS Hbody Hge Hres Hpc' Hsent Hnt Hok Hb Hacc
+                      |body D e0 HS Hbody Hge Hres Hpc' Hsent Hgot Hok Hrem Hst Hacc
+                      |body D e0 HS Hbody Hend Hres Hro Hpc' Hsent Hacc|al x Hres Hpc' Hcl Hsat].
       * apply ph_pre; cbn; assumption.
       * eapply (ph_body E S _ body D e0 d'); cbn; assumption.
-      * eapply (ph_send E S _ body D); cbn; assumption.
+      * eapply (ph_trl E S _ body D e0); cbn; assumption.
+      * eapply (ph_send E S _ body D e0); cbn; assumption.
       * eapply ph_done; cbn; eassumption.
   - (* Poll *)
     pose proof (poll_task_inv (task_fuel r) E S s r Henv Hso Hph) as Hp.
@@ -778,7 +1021,8 @@ Proof.
       destruct (scan_body 0 [] S') as [d e] eqn:Hscan.
       assert (Hne : e <> EndBad) by (intros He; subst e; discriminate Hl).
       destruct (scan_body_ok _ _ _ _ _ Hscan Hne) as [d0 [Hd Hb]].
-      left. split; [eapply pg_msg; exact Hb|]. split; [exact Hfs0 | reflexivity].
+      assert (Hge : good_end e) by (intros He; subst e; discriminate Hl).
+      left. split; [eapply pg_msg; [exact Hb | exact Hge]|]. split; [exact Hfs0 | reflexivity].
     + right. exists HMalformed, S'. repeat split; try reflexivity. left; reflexivity. left; split; reflexivity.
     + right. exists HOversized, S'. repeat split; try reflexivity. right; reflexivity. left; split; reflexivity.
     + discriminate Hl.
@@ -819,6 +1063,7 @@ Proof.
   apply ph_pre; cbn; try reflexivity.
   - destruct (c_role c); exact I.
   - unfold sent_ok. cbn. destruct (c_role c); split; reflexivity.
+  - split; reflexivity.
   - eapply class_pre_stream. exact Hal.
 Qed.
 
@@ -905,17 +1150,22 @@ Qed.
 Lemma phase_request_ok : forall E S r, phase E S r -> request_ok E (cfg r) S r.
 Proof.
   intros E S r Hph.
-  destruct Hph as [Hres Hacc Hpre Hsent Hstream|body D e d' HS Hbody Hres Hpc Hsent Hok Hb Hacc
-                  |body D HS Hbody Hres Hro Hpc Hsent Hacc|al x Hres Hpc Hcl Hsat].
+  assert (Hmsg : forall body D e, S = EHeaders HOk :: body -> body_ok 0 body D e -> good_end e ->
+            res r = None -> prefixb (acc r) D = true -> request_ok E (cfg r) S r).
+  { intros body D e HS Hbody Hge Hres Hp.
+    destruct (classify_msg (cfg r) body D e Hbody) as [Hall Hcl]. rewrite <- HS in Hall, Hcl.
+    destruct (msg_allowances_some (cfg r) D e Hge (body_ok_not_bad _ _ _ _ Hbody)) as [l Hl].
+    unfold request_ok, classify. rewrite Hcl, Hl, Hres, Hall. eexists. split; [reflexivity | exact Hp]. }
+  destruct Hph as [Hres Hacc Hpre Hsent Hnt Hstream|body D e d' HS Hbody Hge Hres Hpc Hsent Hnt Hok Hb Hacc
+                  |body D e HS Hbody Hge Hres Hpc Hsent Hgot Hok Hrem Hst Hacc
+                  |body D e HS Hbody Hend Hres Hro Hpc Hsent Hacc|al x Hres Hpc Hcl Hsat].
   - destruct (pre_stream_classified (cfg r) S _ _ Hstream) as [l Hl].
     unfold request_ok, classify. rewrite Hl, Hres, Hacc. eexists. split; reflexivity.
-  - destruct (classify_msg (cfg r) body D e Hbody) as [Hall Hcl]. rewrite <- HS in Hall, Hcl.
-    pose proof (body_ok_not_bad _ _ _ _ Hbody) as Hne.
-    unfold request_ok, classify. rewrite Hcl, Hres, Hall, <- Hacc.
-    destruct e; [| |contradiction Hne; reflexivity]; eexists; (split; [reflexivity | apply prefixb_app]).
-  - destruct (classify_msg (cfg r) body D EndFin Hbody) as [Hall Hcl]. rewrite <- HS in Hall, Hcl.
-    unfold request_ok, classify. rewrite Hcl, Hres, Hall, Hacc.
-    eexists. split; [reflexivity | apply prefixb_refl].
+  - eapply Hmsg; try eassumption. rewrite <- Hacc. apply prefixb_app.
+  - eapply Hmsg; try eassumption. rewrite Hacc. apply prefixb_refl.
+  - eapply Hmsg; try eassumption.
+    + destruct Hend as [[He _]|[He _]]; subst e; discriminate.
+    + rewrite Hacc. apply prefixb_refl.
   - unfold request_ok. rewrite Hres. exists al. split; assumption.
 Qed.
 
@@ -946,7 +1196,7 @@ Lemma witems_eqb_true : forall a b, list_eqb witem_eqb a b = true -> a = b.
 Proof.
   induction a as [|x a IH]; intros [|y b] H; cbn in H; try discriminate; [reflexivity|].
   apply andb_true_iff in H. destruct H as [H1 H2]. rewrite (IH _ H2). f_equal.
-  destruct x, y; cbn in H1; try discriminate; [apply N.eqb_eq in H1 | apply bytes_eqb_true in H1]; subst; reflexivity.
+  destruct x, y; cbn in H1; try discriminate; try reflexivity; [apply N.eqb_eq in H1 | apply bytes_eqb_true in H1]; subst; reflexivity.
 Qed.
 Lemma calls_eqb_true : forall a b, list_eqb call_eqb a b = true -> a = b.
 Proof.
@@ -956,20 +1206,22 @@ Proof.
 Qed.
 
 
-Lemma healthy_exact : forall E c S r d,
-  healthy c S = Some d -> undisturbed E c -> request_ok E c S r -> res r <> None ->
-  observe r = {| ob_out := OOk; ob_data := d; ob_calls := [CFin]; ob_tx := healthy_tx c |}.
+Lemma healthy_exact : forall E c S r d t,
+  healthy c S = Some (d, t) -> undisturbed E c -> request_ok E c S r -> res r <> None ->
+  observe r = {| ob_out := OOk; ob_data := d; ob_trl := t; ob_calls := [CFin]; ob_tx := healthy_tx c |}.
 Proof.
-  intros E c S r d Hh (Hs & Ho & Hg) [al [Hal Hres]] Hne.
+  intros E c S r d t Hh (Hs & Ho & Hz & Hg) [al [Hal Hres]] Hne.
   unfold healthy in Hh. unfold classify in Hal.
   destruct (classify_script c S) as [l|] eqn:Hl; [|discriminate Hh].
-  destruct l as [|a l']; [discriminate Hh|]. destruct a as [d0 tx0|]; [|discriminate Hh].
-  destruct l'; [|discriminate Hh]. injection Hh as Hh. subst d0.
+  destruct l as [|a l']; [discriminate Hh|]. destruct a as [d0 tx0 t0|]; [|discriminate Hh].
+  destruct l'; [|discriminate Hh]. injection Hh as Hh Ht. subst d0 t0.
   assert (Htx : tx0 = healthy_tx c /\ exists body, S = EHeaders HOk :: body).
   { destruct S as [|x S']; [discriminate Hl|]. destruct x as [k| | | | |]; try discriminate Hl.
     - destruct k; cbn in Hl.
-      + destruct (scan_body 0 [] S') as [d1 e1]. destruct e1; try discriminate Hl.
-        injection Hl as H1 H2. split; [symmetry; exact H2 | eexists; reflexivity].
+      + destruct (scan_body 0 [] S') as [d1 e1]. destruct e1 as [|k1|c1|]; try discriminate Hl.
+        * injection Hl as H1 H2 H3. split; [symmetry; exact H2 | eexists; reflexivity].
+        * destruct k1; try discriminate Hl; try (destruct (c_role c); discriminate Hl).
+          injection Hl as H1 H2 H3. split; [symmetry; exact H2 | eexists; reflexivity].
       + destruct (c_role c); discriminate Hl.
       + destruct (c_role c); discriminate Hl.
       + discriminate Hl.
@@ -979,14 +1231,19 @@ Proof.
   destruct Htx as [Htx [body HS]]. subst tx0.
   assert (Henv : classify_env c E S = []).
   { unfold classify_env. rewrite Hs, Ho, HS. cbn [app].
+    assert (Hzz : match c_trl c with Some z => over z (e_limit E) | None => false end = false).
+    { destruct (c_trl c) as [z|]; [apply Hz; reflexivity | reflexivity]. }
+    rewrite Hzz.
     destruct (c_role c) eqn:Hro; cbn; [reflexivity|]. rewrite (Hg eq_refl). reflexivity. }
   rewrite Henv in Hal. cbn [app] in Hal. injection Hal as Hal. subst al.
   destruct (res r) as [x|] eqn:Hr; [|contradiction Hne; reflexivity].
   unfold sat in Hres. cbn [existsb] in Hres. rewrite orb_false_r in Hres.
-  unfold sat1 in Hres. destruct (observe r) as [out data cs txs] eqn:Hobs. cbn [ob_out ob_data ob_calls ob_tx] in Hres.
+  unfold sat1 in Hres. destruct (observe r) as [out data g cs txs] eqn:Hobs. cbn [ob_out ob_data ob_calls ob_tx ob_trl] in Hres.
   destruct out; try discriminate Hres.
+  apply andb_true_iff in Hres. destruct Hres as [Hres H4].
   apply andb_true_iff in Hres. destruct Hres as [Hres H3]. apply andb_true_iff in Hres. destruct Hres as [H1 H2].
-  apply bytes_eqb_true in H1. apply witems_eqb_true in H2. apply calls_eqb_true in H3. subst. reflexivity.
+  apply bytes_eqb_true in H1. apply witems_eqb_true in H2. apply calls_eqb_true in H3. apply Bool.eqb_prop in H4.
+  subst. reflexivity.
 Qed.
 
 (* ------------------------------------------------------------------ T2: requests interact only through the cell *)
@@ -1049,22 +1306,31 @@ Proof.
     + mono_cases; cbn in *; try assumption; left; reflexivity.
 Qed.
 
+Lemma recv_trailers_mono : forall s p kept f, sh_mono s (snd (fst (recv_trailers s p kept f))).
+Proof.
+  intros s p kept f. unfold recv_trailers, trailers_tail, trailers_decode.
+  mono_cases; cbn in *; try assumption; left; reflexivity.
+Qed.
+
+Ltac mono_pc s r :=
+  match goal with
+  | |- context[poll_recv_data s (fs r)] =>
+      let H := fresh "H" in
+      pose proof (recv_data_loop_mono (Datatypes.S (length (buf (fs r)) + length (rx (fs r)))) s (fs r)) as H;
+      unfold poll_recv_data; destruct (recv_data_loop _ s (fs r)) as [[? ?] ?]; cbn in H;
+      mono_cases; cbn; exact H
+  | |- context[recv_trailers s ?p ?k (fs r)] =>
+      let H := fresh "H" in
+      pose proof (recv_trailers_mono s p k (fs r)) as H;
+      destruct (recv_trailers s p k (fs r)) as [[? ?] ?]; cbn in H;
+      mono_cases; cbn; exact H
+  | _ => mono_cases; cbn in *; try assumption; left; reflexivity
+  end.
+
 Lemma exec_pc_mono : forall s r, sh_mono s (fst (fst (exec_pc s r))).
 Proof.
   intros s r. unfold exec_pc.
-  destruct (pcr r); try (left; reflexivity).
-  - mono_cases; cbn in *; try assumption; left; reflexivity.
-  - pose proof (recv_data_loop_mono (Datatypes.S (length (buf (fs r)) + length (rx (fs r)))) s (fs r)) as H.
-    unfold poll_recv_data. destruct (recv_data_loop _ s (fs r)) as [[x s1] f1]. cbn in H.
-    destruct x; cbn; exact H.
-  - mono_cases; cbn in *; try assumption; left; reflexivity.
-  - mono_cases; cbn in *; try assumption; try (left; reflexivity).
-  - mono_cases; cbn in *; try assumption; left; reflexivity.
-  - mono_cases; cbn in *; try assumption; try (left; reflexivity).
-  - mono_cases; cbn in *; try assumption; left; reflexivity.
-  - pose proof (recv_data_loop_mono (Datatypes.S (length (buf (fs r)) + length (rx (fs r)))) s (fs r)) as H.
-    unfold poll_recv_data. destruct (recv_data_loop _ s (fs r)) as [[x s1] f1]. cbn in H.
-    destruct x; cbn; exact H.
+  destruct (pcr r); try (left; reflexivity); mono_pc s r.
 Qed.
 
 Lemma poll_task_mono : forall fuel s r, sh_mono s (fst (poll_task fuel s r)).
@@ -1175,13 +1441,13 @@ Proof.
   destruct (cell (sh (run sched (init_world l)))); [discriminate Hq | reflexivity].
 Qed.
 
-Theorem healthy_unharmed : forall l stops L G sched j c S d r,
+Theorem healthy_unharmed : forall l stops L G sched j c S d t r,
   in_class l -> Forall (action_ok stops L G) sched ->
-  nth_error l j = Some (c, S) -> healthy c S = Some d -> undisturbed (env_of stops L G j) c ->
+  nth_error l j = Some (c, S) -> healthy c S = Some (d, t) -> undisturbed (env_of stops L G j) c ->
   nth_error (reqs (run sched (init_world l))) j = Some r -> res r <> None ->
-  observe r = {| ob_out := OOk; ob_data := d; ob_calls := [CFin]; ob_tx := healthy_tx c |}.
+  observe r = {| ob_out := OOk; ob_data := d; ob_trl := t; ob_calls := [CFin]; ob_tx := healthy_tx c |}.
 Proof.
-  intros l stops L G sched j c S d r Hcl Hok Hl Hh Hu Hr Hne.
+  intros l stops L G sched j c S d t r Hcl Hok Hl Hh Hu Hr Hne.
   destruct (confined l stops L G sched Hcl Hok) as (_ & _ & Hreq).
   destruct (Hreq j c S r Hl Hr) as [_ Hrok].
   eapply healthy_exact; eassumption.
@@ -1264,33 +1530,49 @@ Ltac indep_close Hrel :=
   end;
   reflexivity.
 
+Lemma recv_trailers_indep : forall s s2 p kept f x f',
+  recv_trailers s p kept f = (x, s, f') -> sh_rel s s2 -> recv_trailers s2 p kept f = (x, s2, f').
+Proof.
+  intros s s2 p kept f x f' H Hrel.
+  unfold recv_trailers, trailers_tail, trailers_decode in *.
+  destruct kept as [k|].
+  - destruct (trl_waits_for_end && negb (eos f && match buf f with [] => true | _ => false end)).
+    + destruct (poll_next f) as [[| |k'|t|c| | |m] f1]; indep_split; indep_close Hrel.
+    + indep_split; indep_close Hrel.
+  - destruct (poll_next f) as [[| |k'|t|c| | |m] f1]; indep_split; indep_close Hrel.
+Qed.
+
+Ltac indep_pc s r H Hrel :=
+  match type of H with
+  | context[poll_recv_data s (fs r)] =>
+      let E := fresh "E" in
+      unfold poll_recv_data in *;
+      destruct (recv_data_loop _ s (fs r)) as [[?x ?s1] ?f1] eqn:E;
+      match type of E with recv_data_loop _ _ _ = (?x, ?s1, ?f1) =>
+        assert (s1 = s) by (destruct x; inversion H; reflexivity); subst s1;
+        rewrite (recv_data_loop_indep _ _ _ _ _ _ E Hrel);
+        destruct x; indep_close Hrel
+      end
+  | context[recv_trailers s ?p ?k (fs r)] =>
+      let E := fresh "E" in
+      destruct (recv_trailers s p k (fs r)) as [[?x ?s1] ?f1] eqn:E;
+      match type of E with recv_trailers _ _ _ _ = (?x, ?s1, ?f1) =>
+        assert (s1 = s) by (destruct x; indep_split; inversion H; reflexivity); subst s1;
+        rewrite (recv_trailers_indep _ _ _ _ _ _ _ E Hrel);
+        destruct x; indep_split; indep_close Hrel
+      end
+  | context[poll_next (fs r)] =>
+      destruct (poll_next (fs r)) as [[| |?k|?t|?c| | |?m] ?f1]; indep_split; indep_close Hrel
+  | _ => indep_split; indep_close Hrel
+  end.
+
 Lemma exec_pc_indep : forall s s2 r r' st,
   exec_pc s r = (s, r', st) -> sh_rel s s2 -> exec_pc s2 r = (s2, r', st).
 Proof.
   intros s s2 r r' st H Hrel.
   pose proof Hrel as (Hcl & Hpm & Hcell).
   unfold exec_pc in *. rewrite ?write_err_eq, ?fse_quic_eq in *. rewrite Hcl, Hpm.
-  destruct (pcr r).
-  - indep_close Hrel.
-  - destruct (poll_next (fs r)) as [[| |k|t|c| | |m] f1]; indep_split; indep_close Hrel.
-  - unfold poll_recv_data in *.
-    destruct (recv_data_loop _ s (fs r)) as [[x s1] f1] eqn:E.
-    assert (Hs1 : s1 = s) by (destruct x; inversion H; reflexivity). subst s1.
-    rewrite (recv_data_loop_indep _ _ _ _ _ _ E Hrel).
-    destruct x; indep_close Hrel.
-  - indep_split; indep_close Hrel.
-  - indep_split; indep_close Hrel.
-  - indep_close Hrel.
-  - indep_split; indep_close Hrel.
-  - indep_split; indep_close Hrel.
-  - indep_close Hrel.
-  - destruct (poll_next (fs r)) as [[| |k|t|c| | |m] f1]; indep_split; indep_close Hrel.
-  - unfold poll_recv_data in *.
-    destruct (recv_data_loop _ s (fs r)) as [[x s1] f1] eqn:E.
-    assert (Hs1 : s1 = s) by (destruct x; inversion H; reflexivity). subst s1.
-    rewrite (recv_data_loop_indep _ _ _ _ _ _ E Hrel).
-    destruct x; indep_close Hrel.
-  - indep_close Hrel.
+  destruct (pcr r); indep_pc s r H Hrel.
 Qed.
 
 Lemma poll_task_indep : forall fuel s s2 r r',
@@ -1382,11 +1664,12 @@ Qed.
 (* ------------------------------------------------------------------ progress: a request whose events have all arrived completes *)
 Definition stage (p : pc) : nat :=
   match p with
-  | SWait => 5 | SResolve | SRecv => 4 | SSendResp => 3 | SSendData => 2 | SFinish => 1
-  | CSendReq => 3 | CSendData => 2 | CFinish | CRecvResp | CRecv => 1
+  | SWait => 6 | SResolve | SRecv | SRecvTrl => 5 | SSendResp => 4 | SSendData => 3 | SSendTrl => 2 | SFinish => 1
+  | CSendReq => 4 | CSendData => 3 | CSendTrl => 2 | CFinish | CRecvResp | CRecv | CRecvTrl => 1
   | Done => 0
   end%nat.
-Definition recv_wait (p : pc) : Prop := p = SResolve \/ p = SRecv \/ p = CRecvResp \/ p = CRecv.
+Definition recv_wait (p : pc) : Prop :=
+  p = SResolve \/ p = SRecv \/ p = SRecvTrl \/ p = CRecvResp \/ p = CRecv \/ p = CRecvTrl.
 
 Definition stop_class (r r1 : req) : Prop :=
   pcr r1 = Done \/ (stage (pcr r1) < stage (pcr r))%nat \/ (pcr r1 = pcr r /\ pcr r = SWait) \/
@@ -1399,6 +1682,30 @@ Ltac class_split :=
   | |- context[match ?x with _ => _ end] => destruct x
   end.
 
+Lemma recv_trailers_pending : forall s p kept f o s' f',
+  recv_trailers s p kept f = (TrPending o, s', f') -> rx f' = [] /\ eos f' = false.
+Proof.
+  intros s p kept f o s' f' H. unfold recv_trailers, trailers_tail, trailers_decode in H.
+  destruct kept as [k|].
+  - destruct (trl_waits_for_end && negb (eos f && match buf f with [] => true | _ => false end)).
+    + destruct (poll_next f) as [[| |k'|t|c| | |m] f1] eqn:Hp;
+        try (inversion H; subst; eapply poll_next_pending; exact Hp);
+        repeat match type of H with context[match ?x with _ => _ end] => destruct x end; discriminate H.
+    + repeat match type of H with context[match ?x with _ => _ end] => destruct x end; discriminate H.
+  - destruct (poll_next f) as [[| |k'|t|c| | |m] f1] eqn:Hp;
+      try (inversion H; subst; eapply poll_next_pending; exact Hp);
+      try (repeat match type of H with context[match ?x with _ => _ end] => destruct x end; discriminate H).
+    destruct (trl_waits_for_end && negb (eos f1 && match buf f1 with [] => true | _ => false end)).
+    + destruct (poll_next f1) as [[| |k2|t|c| | |m] f2] eqn:Hp2;
+        try (inversion H; subst; eapply poll_next_pending; exact Hp2);
+        repeat match type of H with context[match ?x with _ => _ end] => destruct x end; discriminate H.
+    + repeat match type of H with context[match ?x with _ => _ end] => destruct x end; discriminate H.
+Qed.
+
+Ltac cls_finish :=
+  cbn; (split; [reflexivity|]);
+  first [ left; reflexivity | right; left; cbn; lia | (repeat split; try (cbn; lia); discriminate) ].
+
 Lemma exec_pc_classify : forall s r,
   let '(s', r1, st) := exec_pc s r in
   todo r1 = todo r /\
@@ -1409,45 +1716,58 @@ Lemma exec_pc_classify : forall s r,
 Proof.
   intros s r. unfold exec_pc, stop_class, recv_wait.
   destruct (pcr r) eqn:Hpc.
-  - cbn. split; [reflexivity|]. right; right; left. split; [exact Hpc | reflexivity].
-  - destruct (poll_next (fs r)) as [[| |k|t|c| | |m] f1] eqn:Hp.
+  - (* SWait *) cbn. split; [reflexivity|]. right; right; left. split; [exact Hpc | reflexivity].
+  - (* SResolve *)
+    destruct (poll_next (fs r)) as [[| |k|t|c| | |m] f1] eqn:Hp.
     + cbn. split; [reflexivity|]. right; right; right.
       destruct (poll_next_pending _ _ Hp) as [H1 H2]. repeat split; auto.
-    + class_split; cbn; (split; [reflexivity|]); left; reflexivity.
-    + destruct k; class_split; cbn; (split; [reflexivity|]); try (left; reflexivity).
-      cbn. repeat split; try lia; discriminate.
-    + class_split; cbn; (split; [reflexivity|]); left; reflexivity.
-    + class_split; cbn; (split; [reflexivity|]); left; reflexivity.
-    + class_split; cbn; (split; [reflexivity|]); left; reflexivity.
-    + cbn. split; [reflexivity|]. left; reflexivity.
-    + cbn. split; [reflexivity|]. left; reflexivity.
-  - unfold poll_recv_data. destruct (recv_data_loop _ s (fs r)) as [[x s1] f1] eqn:Hp.
-    destruct x; cbn; (split; [reflexivity|]); try (left; reflexivity).
-    + right; right; right. destruct (recv_data_loop_pending _ _ _ _ _ Hp) as [H1 H2]. repeat split; auto.
-    + cbn. repeat split; try lia; discriminate.
-    + right; left. cbn. lia.
-  - class_split; cbn; (split; [reflexivity|]); try (left; reflexivity). right; left. cbn. lia.
-  - class_split; cbn; (split; [reflexivity|]); try (left; reflexivity). right; left. cbn. lia.
-  - cbn. split; [reflexivity|]. left; reflexivity.
-  - class_split; cbn; (split; [reflexivity|]); try (left; reflexivity). right; left. cbn. lia.
-  - class_split; cbn; (split; [reflexivity|]); try (left; reflexivity). right; left. cbn. lia.
-  - cbn. split; [reflexivity|]. cbn. repeat split; try lia; discriminate.
-  - destruct (poll_next (fs r)) as [[| |k|t|c| | |m] f1] eqn:Hp.
+    + class_split; cls_finish.
+    + destruct k; class_split; cls_finish.
+    + class_split; cls_finish.
+    + class_split; cls_finish.
+    + class_split; cls_finish.
+    + cls_finish.
+    + cls_finish.
+  - (* SRecv *)
+    unfold poll_recv_data. destruct (recv_data_loop _ s (fs r)) as [[x s1] f1] eqn:Hp.
+    destruct x; try cls_finish.
+    cbn. split; [reflexivity|]. right; right; right.
+    destruct (recv_data_loop_pending _ _ _ _ _ Hp) as [H1 H2]. repeat split; auto.
+  - (* SRecvTrl *)
+    destruct (recv_trailers s SRecvTrl (trl r) (fs r)) as [[x s1] f1] eqn:Hp.
+    destruct x; try cls_finish.
+    cbn. split; [reflexivity|]. right; right; right.
+    destruct (recv_trailers_pending _ _ _ _ _ _ _ Hp) as [H1 H2]. repeat split; auto.
+  - class_split; cls_finish.
+  - class_split; cls_finish.
+  - class_split; cls_finish.
+  - cls_finish.
+  - class_split; cls_finish.
+  - class_split; cls_finish.
+  - class_split; cls_finish.
+  - cls_finish.
+  - (* CRecvResp *)
+    destruct (poll_next (fs r)) as [[| |k|t|c| | |m] f1] eqn:Hp.
     + cbn. split; [reflexivity|]. right; right; right.
-      destruct (poll_next_pending _ _ Hp) as [H1 H2]. repeat split; auto.
-    + class_split; cbn; (split; [reflexivity|]); left; reflexivity.
-    + destruct k; class_split; cbn; (split; [reflexivity|]); try (left; reflexivity).
-      cbn. repeat split; try lia; discriminate.
-    + class_split; cbn; (split; [reflexivity|]); left; reflexivity.
-    + class_split; cbn; (split; [reflexivity|]); left; reflexivity.
-    + class_split; cbn; (split; [reflexivity|]); left; reflexivity.
-    + cbn. split; [reflexivity|]. left; reflexivity.
-    + cbn. split; [reflexivity|]. left; reflexivity.
-  - unfold poll_recv_data. destruct (recv_data_loop _ s (fs r)) as [[x s1] f1] eqn:Hp.
-    destruct x; cbn; (split; [reflexivity|]); try (left; reflexivity).
-    + right; right; right. destruct (recv_data_loop_pending _ _ _ _ _ Hp) as [H1 H2]. repeat split; auto.
-    + cbn. repeat split; try lia; discriminate.
-  - cbn. split; [reflexivity|]. left. exact Hpc.
+      destruct (poll_next_pending _ _ Hp) as [H1 H2]. repeat split; auto 6.
+    + class_split; cls_finish.
+    + destruct k; class_split; cls_finish.
+    + class_split; cls_finish.
+    + class_split; cls_finish.
+    + class_split; cls_finish.
+    + cls_finish.
+    + cls_finish.
+  - (* CRecv *)
+    unfold poll_recv_data. destruct (recv_data_loop _ s (fs r)) as [[x s1] f1] eqn:Hp.
+    destruct x; try cls_finish.
+    cbn. split; [reflexivity|]. right; right; right.
+    destruct (recv_data_loop_pending _ _ _ _ _ Hp) as [H1 H2]. repeat split; auto 7.
+  - (* CRecvTrl *)
+    destruct (recv_trailers s CRecvTrl (trl r) (fs r)) as [[x s1] f1] eqn:Hp.
+    destruct x; try cls_finish.
+    cbn. split; [reflexivity|]. right; right; right.
+    destruct (recv_trailers_pending _ _ _ _ _ _ _ Hp) as [H1 H2]. repeat split; auto 8.
+  - (* Done *) cbn. split; [reflexivity|]. left. exact Hpc.
 Qed.
 
 Lemma pending_impossible : forall E S r,
@@ -1455,15 +1775,19 @@ Lemma pending_impossible : forall E S r,
   rx (fs r) = [] -> eos (fs r) = false -> False.
 Proof.
   intros E S r Hph Htodo Hres Hw Hrx Heos.
-  destruct Hph as [_ Hacc Hpre Hsent Hstream|body D e d' HS Hbody _ Hpc Hsent Hok Hb Hacc
-                  |body D HS Hbody _ Hro Hpc Hsent Hacc|al x Hres' Hpc Hcl Hsat].
+  destruct Hph as [_ Hacc Hpre Hsent Hnt Hstream|body D e d' HS Hbody Hge _ Hpc Hsent Hnt Hok Hb Hacc
+                  |body D e HS Hbody Hge _ Hpc Hsent Hgot Hok Hrem Hst Hacc
+                  |body D e HS Hbody Hend _ Hro Hpc Hsent Hacc|al x Hres' Hpc Hcl Hsat].
   - destruct Hstream as [(Hg & Hfs & Hpend)|(k & rest & HS & Hk & Hbuf & Hr & He & Hrx')].
     + unfold pend in Hpend. rewrite Hrx, Htodo, !app_nil_r in Hpend.
       destruct Hfs as (_ & _ & [Hb|Hb]); rewrite Hb in Hpend; subst S; inversion Hg.
     + destruct Hrx' as [[_ Ht]|[q Hq]]; [rewrite Htodo in Ht; subst S; discriminate Ht | rewrite Hrx in Hq; discriminate Hq].
   - unfold pend in Hb. rewrite Hrx, Htodo, !app_nil_r in Hb.
     eapply body_ok_not_chunks; [exact Hb | apply Hok].
-  - destruct Hpc as [H|[H|H]]; destruct Hw as [H'|[H'|[H'|H']]]; congruence.
+  - destruct Hst as [(_ & _ & He' & _)|(k & _ & Htail)]; [congruence|].
+    unfold pend in Htail. rewrite Hrx, Htodo, !app_nil_r in Htail.
+    eapply tail_ok_not_chunks; [exact Htail | apply Hok].
+  - destruct Hpc as [H|[H|[H|H]]]; destruct Hw as [H'|[H'|[H'|[H'|[H'|H']]]]]; congruence.
   - congruence.
 Qed.
 
@@ -1615,10 +1939,12 @@ Qed.
 Lemma done_has_result : forall E S r, phase E S r -> pcr r = Done -> res r <> None.
 Proof.
   intros E S r Hph Hd.
-  destruct Hph as [_ _ Hpre _ _|body D e d' _ _ _ Hpc _ _ _ _|body D _ _ _ _ Hpc _ _|al x Hres _ _ _].
+  destruct Hph as [_ _ Hpre _ _ _|body D e d' _ _ _ _ Hpc _ _ _ _ _|body D e _ _ _ _ Hpc _ _ _ _ _ _
+                  |body D e _ _ _ _ _ Hpc _ _|al x Hres _ _ _].
   - rewrite Hd in Hpre. destruct (c_role (cfg r)); contradiction.
   - rewrite Hd in Hpc. destruct (c_role (cfg r)); discriminate Hpc.
-  - rewrite Hd in Hpc. destruct Hpc as [H|[H|H]]; discriminate H.
+  - rewrite Hd in Hpc. destruct (c_role (cfg r)); discriminate Hpc.
+  - rewrite Hd in Hpc. destruct Hpc as [H|[H|[H|H]]]; discriminate H.
   - rewrite Hres. discriminate.
 Qed.
 
@@ -1679,5 +2005,5 @@ Proof.
     unfold completion in Hph4. change (Open j :: ?x) with ([Open j] ++ x) in Hph4. rewrite !req_run_app in Hph4.
     exact Hph4.
   - apply (polls_complete j 5 (env_of stops L G j) S s r3 Henv Hso3 Hph3 Htodo); [congruence|].
-    destruct (pcr r3); cbn; lia.
+    destruct (pcr r3) eqn:Hp3; cbn; try lia. exfalso. apply Hsw2. congruence.
 Qed.
